@@ -15,6 +15,8 @@
 #include "sqfs/io.h"
 #include "sqfs/error.h"
 #include "util/parse.h"
+#include "xfrm/stream.h"
+#include "xfrm/wrap.h"
 #include "hexio.h"
 #include <errno.h>
 #include <fcntl.h>
@@ -26,6 +28,10 @@ char *record_to_memory(sqfs_istream_t *fp, size_t size);          /* lib/tar/src
 void c12_peek_istream(sqfs_istream_t *s, int *eof, size_t *off, size_t *used);
 size_t c12_istream_bufsz(void);
 void c12_peek_ostream(sqfs_ostream_t *s, unsigned long long *sparse, unsigned long long *size);
+void c12_peek_xistream(sqfs_istream_t *s, size_t *off, size_t *used);
+size_t c12_xistream_bufsz(void);
+void c12_peek_xostream(sqfs_ostream_t *s, size_t *inbuf_used);
+size_t c12_xostream_bufsz(void);
 
 /* ------------------------------------------------------------------ OS script */
 enum { EV_PART, EV_EINTR, EV_ERR, EV_ZERO };
@@ -326,23 +332,45 @@ static int do_ostream(char *fl, char *ops, char *sc)
 	return 0;
 }
 
-static int do_istream(char *b, char *fl, char *d, char *ops, char *sc)
+/* ------------------------------------------------------------------ toy codec (same as Sqfs.IoLoops.toyProc) */
+typedef struct { xfrm_stream_t base; unsigned k; } toy_t;
+
+static int toy_process(xfrm_stream_t *s, const void *in, sqfs_u32 in_size, void *out, sqfs_u32 out_size,
+		       sqfs_u32 *in_read, sqfs_u32 *out_written, int mode)
 {
-	sqfs_istream_t *in; sqfs_ostream_t *o; unsigned char *data; long n; char *p, *save = NULL;
-	size_t line_num = 0; int eof; size_t off, used; int fd;
-	reset_os();
-	if (strtoul(b, NULL, 10) != c12_istream_bufsz()) { puts("bad-B"); return 0; }
-	if (strcmp(fl, "s") && strcmp(fl, "n")) return -1;
-	if ((n = parse_data(d, &data)) < 0) return -1;
-	if (parse_script(sc)) { free(data); return -1; }
-	{ char *cp = strdup(ops), *q, *s2 = NULL; int bad = 0;
-	  if (strcmp(ops, "-")) for (q = strtok_r(cp, ",", &s2); q; q = strtok_r(NULL, ",", &s2))
-		if (!strchr("gaRSPLM", q[0]) || !q[0] || q[1] < '0' || q[1] > '9') bad = 1;
-	  free(cp); if (bad) { free(data); return -1; } }
-	g_src = data; g_src_len = (size_t)n;
-	fd = devnull();
-	if (sqfs_istream_open_handle(&in, "in", fd, 0)) { close(fd); return -1; }
-	if (!(o = open_ostream(fl))) { sqfs_drop(in); return -1; }
+	toy_t *t = (toy_t *)s; const unsigned char *ip = in; unsigned char *op = out;
+	sqfs_u32 m = in_size > 64 ? (in_size + 1) / 2 : (in_size > 5 ? 5 : in_size), n = (out_size / 2 < m) ? out_size / 2 : m, i;
+	if (in_size > 0 && ip[0] == 0xFF) return XFRM_STREAM_ERROR;
+	for (i = 0; i < n; ++i) { op[2 * i] = ip[i]; op[2 * i + 1] = ip[i] ^ (unsigned char)t->k; t->k = (t->k + 1) % 256; }
+	*in_read += n; *out_written += 2 * n;
+	if (n < m) return XFRM_STREAM_BUFFER_FULL;
+	if (mode == XFRM_STREAM_FLUSH_FULL && n == in_size) return XFRM_STREAM_END;
+	return XFRM_STREAM_OK;
+}
+
+static void toy_destroy(sqfs_object_t *o) { free(o); }
+
+static toy_t *toy_create(void)
+{
+	toy_t *t = calloc(1, sizeof(*t)); if (!t) abort();
+	sqfs_object_init(t, toy_destroy, NULL);
+	t->base.process_data = toy_process;
+	return t;
+}
+
+static int ops_valid(const char *ops, const char *letters)
+{
+	char *cp = strdup(ops), *q, *s2 = NULL; int bad = 0;
+	if (strcmp(ops, "-")) for (q = strtok_r(cp, ",", &s2); q; q = strtok_r(NULL, ",", &s2))
+		if (!q[0] || !strchr(letters, q[0]) || q[1] < '0' || q[1] > '9') bad = 1;
+	free(cp);
+	return !bad;
+}
+
+/* run client ops on an istream (file or transforming), printing one observation per op */
+static void run_client_ops(sqfs_istream_t *in, sqfs_ostream_t *o, char *ops, size_t *line_num)
+{
+	char *p, *save = NULL;
 	if (strcmp(ops, "-")) for (p = strtok_r(ops, ",", &save); p; p = strtok_r(NULL, ",", &save)) {
 		size_t arg = strtoul(p + 1, NULL, 10);
 		switch (p[0]) {
@@ -364,10 +392,10 @@ static int do_istream(char *b, char *fl, char *d, char *ops, char *sc)
 		case 'P': printf("P%d ", sqfs_istream_splice(in, o, (sqfs_u32)arg)); break;
 		case 'L': {
 			char *line = NULL;
-			int r = istream_get_line(in, &line, &line_num, (int)arg);
-			if (r == 0) { fputs("L0:", stdout); dtok(stdout, (unsigned char *)line, strlen(line)); printf(":%zu ", line_num); }
-			else if (r > 0) printf("L1:%zu ", line_num);
-			else printf("L%d:%zu ", r, line_num);
+			int r = istream_get_line(in, &line, line_num, (int)arg);
+			if (r == 0) { fputs("L0:", stdout); dtok(stdout, (unsigned char *)line, strlen(line)); printf(":%zu ", *line_num); }
+			else if (r > 0) printf("L1:%zu ", *line_num);
+			else printf("L%d:%zu ", r, *line_num);
 			free(line); break; }
 		case 'M': {
 			char *rec = record_to_memory(in, arg);
@@ -375,6 +403,79 @@ static int do_istream(char *b, char *fl, char *d, char *ops, char *sc)
 			free(rec); break; }
 		}
 	}
+}
+
+static int do_xistream(char *b, char *bx, char *fl, char *d, char *ops, char *sc)
+{
+	sqfs_istream_t *in, *x; sqfs_ostream_t *o; unsigned char *data; long n; toy_t *codec;
+	size_t line_num = 0, off, used, xoff, xused; int eof, fd;
+	reset_os();
+	if (strtoul(b, NULL, 10) != c12_istream_bufsz() || strtoul(bx, NULL, 10) != c12_xistream_bufsz()) { puts("bad-B"); return 0; }
+	if ((strcmp(fl, "s") && strcmp(fl, "n")) || !ops_valid(ops, "gRSPLM")) return -1;
+	if ((n = parse_data(d, &data)) < 0) return -1;
+	if (parse_script(sc)) { free(data); return -1; }
+	g_src = data; g_src_len = (size_t)n;
+	fd = devnull();
+	if (sqfs_istream_open_handle(&in, "in", fd, 0)) { close(fd); return -1; }
+	codec = toy_create();
+	x = istream_xfrm_create(in, (xfrm_stream_t *)codec);
+	if (!x || !(o = open_ostream(fl))) { sqfs_drop(in); sqfs_drop(codec); return -1; }
+	run_client_ops(x, o, ops, &line_num);
+	c12_peek_xistream(x, &xoff, &xused);
+	c12_peek_istream(in, &eof, &off, &used);
+	printf("xst=%zu,%zu,%u st=%d,%zu,%zu ", xoff, xused, codec->k, eof, off, used); print_ostream(o);
+	printf(" ln=%zu", line_num);
+	print_tail();
+	sqfs_drop(x); sqfs_drop(in); sqfs_drop(codec); sqfs_drop(o);
+	return 0;
+}
+
+static int do_xostream(char *bx, char *fl, char *ops, char *sc)
+{
+	sqfs_ostream_t *o, *x; toy_t *codec; char *p, *save = NULL; int rc = 0; size_t idx = 0, inbuf = 0;
+	reset_os();
+	if (strtoul(bx, NULL, 10) != c12_xostream_bufsz()) { puts("bad-B"); return 0; }
+	if ((strcmp(fl, "s") && strcmp(fl, "n")) || parse_script(sc)) return -1;
+	{ char *cp = strdup(ops), *q, *s2 = NULL; int bad = 0;
+	  if (strcmp(ops, "-")) for (q = strtok_r(cp, ",", &s2); q; q = strtok_r(NULL, ",", &s2)) {
+		if (q[0] == 'f' && !q[1]) continue;
+		if (q[0] == 'h' && q[1] >= '0' && q[1] <= '9') continue;
+		if (q[0] == 'd') { unsigned char *t; if (parse_data(q + 1, &t) >= 0) { free(t); continue; } }
+		bad = 1;
+	  }
+	  free(cp); if (bad) return -1; }
+	if (!(o = open_ostream(fl))) return -1;
+	codec = toy_create();
+	x = ostream_xfrm_create(o, (xfrm_stream_t *)codec);
+	if (!x) { sqfs_drop(o); sqfs_drop(codec); return -1; }
+	if (strcmp(ops, "-")) for (p = strtok_r(ops, ",", &save); p; p = strtok_r(NULL, ",", &save)) {
+		if (p[0] == 'f') rc = x->flush(x);
+		else if (p[0] == 'h') rc = x->append(x, NULL, strtoul(p + 1, NULL, 10));
+		else { unsigned char *t; long n = parse_data(p + 1, &t); rc = x->append(x, t, (size_t)n); free(t); }
+		if (rc) break;
+		idx++;
+	}
+	c12_peek_xostream(x, &inbuf);
+	printf("rc=%d@%zu inbuf=%zu k=%u ", rc, idx, inbuf, codec->k); print_ostream(o);
+	print_tail();
+	sqfs_drop(x); sqfs_drop(o); sqfs_drop(codec);
+	return 0;
+}
+
+static int do_istream(char *b, char *fl, char *d, char *ops, char *sc)
+{
+	sqfs_istream_t *in; sqfs_ostream_t *o; unsigned char *data; long n;
+	size_t line_num = 0; int eof; size_t off, used; int fd;
+	reset_os();
+	if (strtoul(b, NULL, 10) != c12_istream_bufsz()) { puts("bad-B"); return 0; }
+	if ((strcmp(fl, "s") && strcmp(fl, "n")) || !ops_valid(ops, "gaRSPLM")) return -1;
+	if ((n = parse_data(d, &data)) < 0) return -1;
+	if (parse_script(sc)) { free(data); return -1; }
+	g_src = data; g_src_len = (size_t)n;
+	fd = devnull();
+	if (sqfs_istream_open_handle(&in, "in", fd, 0)) { close(fd); return -1; }
+	if (!(o = open_ostream(fl))) { sqfs_drop(in); return -1; }
+	run_client_ops(in, o, ops, &line_num);
 	c12_peek_istream(in, &eof, &off, &used);
 	printf("st=%d,%zu,%zu ", eof, off, used); print_ostream(o);
 	printf(" ln=%zu", line_num);
@@ -396,6 +497,9 @@ int main(void)
 		else if (n == 5 && !strcmp(w[0], "writeat")) r = do_writeat(w[1], w[2], w[3], w[4]);
 		else if (n == 4 && !strcmp(w[0], "ostream")) r = do_ostream(w[1], w[2], w[3]);
 		else if (n == 6 && !strcmp(w[0], "istream")) r = do_istream(w[1], w[2], w[3], w[4], w[5]);
+		else if (n == 7 && !strcmp(w[0], "xistream")) r = do_xistream(w[1], w[2], w[3], w[4], w[5], w[6]);
+		else if (n == 5 && !strcmp(w[0], "xostream")) r = do_xostream(w[1], w[2], w[3], w[4]);
+		else if (n == 1 && !strcmp(w[0], "xbufsz")) { printf("%zu %zu\n", c12_xistream_bufsz(), c12_xostream_bufsz()); r = 0; }
 		if (r < 0) puts("bad-op");
 		fflush(stdout);
 	}
